@@ -16,6 +16,7 @@ def dispatch (line : String) : String :=
   | "C17u" :: args => VtModel.TileJson.handleU args
   | "C17m" :: args => VtModel.TileJson.handleM args
   | "C18" :: args => VtModel.Vpl.handle args
+  | "C18r" :: args => VtModel.Vpl.handleRender args
   | "C06" :: args => VtModel.Converter.handle args
   | "C11p" :: args => VtModel.Prim.handlePrim args
   | "C11d" :: args => VtModel.Mvt.handleDecode args
